@@ -35,6 +35,11 @@ RULE_MODULES = ['calmjs.parse.rules', 'calmjs.parse.handlers.core',
                 'calmjs.parse.handlers.obfuscation']
 
 
+# enclosing functions that are themselves run once per print call: state
+# they create and their closures share lives for one call only
+PER_CALL_OWNERS = set()
+
+
 def class_index(mods):
     out = {}
     for m in mods:
@@ -93,6 +98,17 @@ def run(report, index, tier):
         'root of its base expression; per-call state is required to be '
         'created per call; the shortcut entry points are checked to be '
         'straight compositions.')
+    rules(report, index)
+    r44(report, index)
+
+
+def rules(report, index):
+    """R14.1 - R14.3: the printers keep no state across (or shared
+    between nested) invocations; also the premise under which the printer
+    properties (C01, C02, C13, C20) may model one print call as a function
+    of the tree and the configuration"""
+    from .c15 import canary
+    canary()
     mods = [index.need(d) for d in SCOPE]
     sites = []
     for m in mods:
@@ -113,7 +129,13 @@ def run(report, index, tier):
         construct = '%s in %s' % (s.text, s.where.split(' (line')[0])
         key = '%s:%s%s:%s' % (s.module.split('.')[-1],
                               (s.cls + '.') if s.cls else '', s.func, s.text)
-        if s.rootkind == 'fresh':
+        if s.closure and (s.module, s.closure) not in PER_CALL_OWNERS:
+            r3.fail(key, construct,
+                    'writes to `%s`, an object created by the enclosing '
+                    'function %s and captured by %s, which outlives that '
+                    'activation: the object persists between print calls'
+                    % (s.root, s.closure, s.func), where=s.where)
+        elif s.rootkind == 'fresh':
             r1.ok(construct, 'base created in the same activation')
         elif s.rootkind == 'self':
             r1.ok(construct, 'receiver state')
@@ -136,6 +158,19 @@ def run(report, index, tier):
                     'caller: it may be a node of the tree being printed or '
                     'a shared table' % s.root, where=s.where)
 
+    from .c15 import shared_class_mutables
+    seen_cm = set()
+    for cname, attr, s in shared_class_mutables(mods):
+        if (cname, attr) in seen_cm:
+            continue
+        seen_cm.add((cname, attr))
+        r3.fail('%s.%s shared mutable class attribute' % (cname, attr),
+                '%s in %s.%s' % (s.text, s.cls, s.func),
+                '`%s` is a mutable object created once in the class body '
+                'of %s and not rebound by the constructor, but %s.%s '
+                'mutates it through self: every instance, in every print '
+                'call, shares it' % (attr, cname, s.cls, s.func),
+                where=s.where)
     # R14.2 ---------------------------------------------------------------
     r2 = report.rule('R14.2', 'per-call state is created per call', floor=5)
     percall = per_call_functions(index)
@@ -230,7 +265,9 @@ def run(report, index, tier):
              'self.rules: rule())',
              where='unparsers/base.py:BaseUnparser.setup')
 
-    # R14.4 ---------------------------------------------------------------
+
+
+def r44(report, index):
     r4 = report.rule('R14.4', 'shortcut entry points are straight '
                      'compositions', floor=4)
     fac = index.need('calmjs.parse.factory')
